@@ -8,6 +8,7 @@ L. library correspondence (ties the model's pathlib layer; independent of the re
    spelling, `str(Path(s))`, `.parent`, `.absolute()`, `Path(s).resolve()` (real file system, no symlinks),
    `".." in s`, `s.strip("/")`  vs  `Model.PathSec` (driver command `pathlib`).
 P. POST, bounded-exhaustive: every path of <= N segments over the POST alphabet, relative and absolute spelling
+   (the 8 kinds of the property + the root's own name + '~')
    x {/script f, /directory f, /directory d, /lineage f} x {POST, OPTIONS, PUT, GET} x 2 root settings; plus mixed
    payloads (f and d, f and e, d on /script).  Status and a canonical body classification are compared with the model
    of the REPAIRED code (driver command `pathbatch`).
@@ -32,7 +33,7 @@ from pathlib import Path
 
 from common import Check, Driver, Infra, REPO, canon_json, leanchecker, log
 
-POST_ALPHABET = ["..", ".", "child", "nested", "root_sib", "outside", "f.sql", "", "root"]
+POST_ALPHABET = ["..", ".", "child", "nested", "root_sib", "outside", "f.sql", "", "root", "~"]
 GET_ALPHABET = ["..", ".", "child", "nested", "static_sib", "outside", "f.sql", "", "static", "a..b", "..."]
 ALPHABET_ROLES = {
     "..": "parent", ".": "self", "child": "child directory of the root", "nested": "child of the child",
@@ -41,6 +42,8 @@ ALPHABET_ROLES = {
     "before another segment a file used as a directory", "": "empty segment (doubled / leading / trailing slash)",
     "root": "the SQL root's own name (a path can leave the root and come back)", "static": "the static folder's own name",
     "a..b": "a file whose name contains '..'", "...": "a directory named '...'",
+    "~": "an ordinary (non-existent) name for pathlib and the OS; HOME points at the outside directory during the run, so code "
+         "that expands it after the check would leave the root",
 }
 ROUTES = ["/script", "/directory", "/lineage"]
 FIXED_BODY = {
@@ -149,6 +152,7 @@ class App:
         self.tree = tree
         self.saved_cwd = os.getcwd()
         self.saved_env = os.environ.get("SQLLINEAGE_DIRECTORY")
+        self.saved_home = os.environ.get("HOME")
         logging.disable(logging.CRITICAL)        # helpers.py logs a traceback per refused file; not under test
         import sqllineage.drawing as drawing
         if not os.path.realpath(drawing.__file__).startswith(os.path.realpath(REPO) + os.sep):
@@ -159,6 +163,7 @@ class App:
         # Path(pkgdir).joinpath(Path(<absolute>)) is the absolute path: the static folder is the scratch one
         drawing.STATIC_FOLDER = tree.S
         os.environ["SQLLINEAGE_DIRECTORY"] = tree.R
+        os.environ["HOME"] = tree.T + "/outside"
         self.pkg_dir = os.path.dirname(drawing.__file__)
         self.setting = None
 
@@ -206,6 +211,10 @@ class App:
             os.environ.pop("SQLLINEAGE_DIRECTORY", None)
         else:
             os.environ["SQLLINEAGE_DIRECTORY"] = self.saved_env
+        if self.saved_home is None:
+            os.environ.pop("HOME", None)
+        else:
+            os.environ["HOME"] = self.saved_home
         logging.disable(logging.NOTSET)
 
 
@@ -596,7 +605,11 @@ def run_unit(tree, app, use_driver, b, unit):
         if arg is None:
             reqs = [["GET", "/"], ["GET", ""], ["GET", "//"], ["GET", "/index.html"], ["GET", "/index.html/"],
                     ["GET", "/" + tree.T + "/outside/f.sql"], ["GET", "/" + tree.S + "/f.sql"], ["GET", "/%2e%2e/f.sql"],
-                    ["GET", tree.T + "/f.sql"], ["GET", "/..."], ["GET", "/.../f.sql"], ["GET", "/a..b"]]
+                    ["GET", tree.T + "/f.sql"], ["GET", "/..."], ["GET", "/.../f.sql"], ["GET", "/a..b"],
+                    # spellings a decoding step placed after the '..' test would turn into '..'
+                    ["GET", "/%2e%2e/static_sib/f.sql"], ["GET", "/child/%2e%2e/%2e%2e/f.sql"], ["GET", "/%2e%2e%2ff.sql"],
+                    ["GET", "/..%2ff.sql"], ["GET", "/.%2e/f.sql"], ["GET", "/%252e%252e/f.sql"], ["GET", "/~/f.sql"],
+                    ["GET", "/..\\f.sql"], ["GET", "/child\\..\\..\\f.sql"]]
         for segs in spellings_from(GET_ALPHABET, arg, b["get"]):
             for _, p in get_forms(segs):
                 reqs.append(["GET", p])
